@@ -587,6 +587,7 @@ class Engine:
         if k=='ref' or k=='rawref': return self.place_ref(run,locs,r[2],body)
         if k=='discriminant':
             v=self.place_ref(run,locs,r[1],body).get()
+            if isinstance(v,Ref): v=deref(v)        # `&&T == &&T` resolved to T's eq: look through the extra reference
             if isinstance(v,Agg) and v.variant is not None: return Int(64,True,v.variant)
             raise Unsupported('discriminant of '+repr(v)[:80])
         if k=='binop': return self.binop(r[1],self.operand(run,locs,r[2],body),self.operand(run,locs,r[3],body),body)
@@ -791,6 +792,12 @@ class Engine:
     def _resolve(self,key,argv,caller=None):
         for pat,fn,name in self.stubs:
             if pat.search(key): return ('stub',fn,'stub:'+name)
+        # `<&A as PartialEq<&B>>::{eq,ne}` is std's blanket impl over references: it forwards to A's own eq with one reference peeled
+        m=re.match(r'^<&+.* as PartialEq(?:<&+.*>)?>::(eq|ne)$',key)
+        if m:
+            if m.group(1)=='eq': return ('model',lambda e,run,a,f: e.eq(run,a[0],a[1]),'model:<&A as PartialEq<&B>>::eq')
+            from .models import b_not
+            return ('model',lambda e,run,a,f: b_not(e.eq(run,a[0],a[1])),'model:<&A as PartialEq<&B>>::ne')
         b=self.resolve_incrate(key,argv,caller)
         if b is not None: return ('body',b,None)
         for pat,fn,name in self.models:
